@@ -19,22 +19,20 @@ BUILD = os.path.join(VERIF, "build")
 UNITDIR = os.path.join(BUILD, "units")
 
 VERIFY_MSG = [
-    (re.compile(r"^postcondition not satisfied"), "post"),
-    (re.compile(r"^precondition not satisfied"), "pre"),
-    (re.compile(r"^invariant not satisfied"), "inv"),
-    (re.compile(r"^loop invariant not satisfied"), "inv"),
-    (re.compile(r"^assertion failed"), "assert"),
-    (re.compile(r"^possible arithmetic underflow/overflow"), "overflow"),
-    (re.compile(r"^possible division by zero"), "divzero"),
-    (re.compile(r"^possible bit shift"), "shift"),
-    (re.compile(r"^could not prove termination"), "decreases"),
-    (re.compile(r"^decreases not satisfied"), "decreases"),
-    (re.compile(r"^recursive call.*decreases|^could not show termination"), "decreases"),
-    (re.compile(r"^unable to prove assertion safety condition|^cannot show invariant holds"), "inv"),
-    (re.compile(r"^loop ensures not satisfied|^loop postcondition|^ensures not satisfied"), "loop_ensures"),
-    (re.compile(r"^unreachable|^reached unreachable"), "panic"),
-    (re.compile(r"^possible .*overflow"), "overflow"),
-    (re.compile(r"^constructed value may fail to meet its declared type invariant"), "inv"),
+    (re.compile(r"postcondition not satisfied"), "post"),
+    (re.compile(r"precondition not satisfied|split precondition failure"), "pre"),
+    (re.compile(r"precondition not met: index in bounds|index out of bounds|index in bounds"), "index"),
+    (re.compile(r"precondition not met|not met"), "pre"),
+    (re.compile(r"invariant not satisfied"), "inv"),
+    (re.compile(r"decreases not satisfied|could not prove termination|termination"), "decreases"),
+    (re.compile(r"assertion failed|assertion not satisfied|assertion failure"), "assert"),
+    (re.compile(r"possible arithmetic underflow/overflow|possible .*overflow"), "overflow"),
+    (re.compile(r"possible division by zero"), "divzero"),
+    (re.compile(r"possible bit shift"), "shift"),
+    (re.compile(r"ensures not satisfied|loop ensures|loop postcondition"), "loop_ensures"),
+    (re.compile(r"unreachable"), "panic"),
+    (re.compile(r"type invariant"), "inv"),
+    (re.compile(r"not satisfied|could not prove|cannot prove|unable to prove|might fail|may fail"), "other"),
 ]
 RLIMIT_MSG = re.compile(r"[Rr]esource limit|rlimit")
 CLAUSE_LABELS = ("failed this postcondition", "failed precondition", "failed this invariant", "failed this loop invariant")
@@ -70,6 +68,8 @@ class Diag:
         self.rlimit = bool(RLIMIT_MSG.search(self.msg))
         self.rendered = d.get("rendered") or self.msg
         spans = d.get("spans", [])
+        foreign = [s for s in spans if os.path.abspath(s.get("file_name", "")) != os.path.abspath(ur.path)]
+        spans = [s for s in spans if s not in foreign]
         clause = [s for s in spans if (s.get("label") or "").startswith("failed")]
         site = [s for s in spans if s not in clause]
         self.clause_line = clause[0]["line_start"] if clause else None
@@ -114,6 +114,9 @@ class Diag:
                 self.src = f"{o[0]}:{o[1]}"
             elif o:
                 self.src = f"contract {o[1]}"
+        if foreign and not clause and self.kind == "post":
+            # contract clause lives in vstd (e.g. FromSpecImpl: `ensures r == from_spec(v)`)
+            self.label = "vstd:" + os.path.basename(foreign[0].get("file_name", "")) + ":" + str(foreign[0].get("line_start"))
         self.is_probe = "@probe" in self.site_text
 
     def obligation(self, unit):
